@@ -1203,9 +1203,9 @@ func TestVerifWatcher(t *testing.T) {
 	out := verifWOpen(t)
 	defer out.close()
 	seed := verifWSeed()
-	n := 360
+	n := 1500
 	if verifWThorough() {
-		n = 3000
+		n = 6000
 	}
 	if s := os.Getenv("VERIF_W_N"); s != "" {
 		n, _ = strconv.Atoi(s)
